@@ -13,13 +13,21 @@
 #include <regex>
 #include "manif/constants.h"
 namespace manif {
-template<> struct Constants<sym::Real> { static const sym::Real eps; };
+template<> struct Constants<sym::Real> { static const sym::Real eps; static const sym::Real eps_sqrt; static const sym::Real to_rad; static const sym::Real to_deg; };
 #ifdef SYM_FLOAT_PROFILE
 const sym::Real Constants<sym::Real>::eps = sym::Real((double)Constants<float>::eps);
 #else
 const sym::Real Constants<sym::Real>::eps = sym::Real(Constants<double>::eps);
 #endif
-template<class B,int N> struct Constants<sym::Jet<B,N>> { static const sym::Jet<B,N> eps; };
+#ifdef SYM_FLOAT_PROFILE
+const sym::Real Constants<sym::Real>::eps_sqrt = sym::Real((double)Constants<float>::eps_sqrt);
+#else
+const sym::Real Constants<sym::Real>::eps_sqrt = sym::Real(Constants<double>::eps_sqrt);
+#endif
+const sym::Real Constants<sym::Real>::to_rad = sym::Real(Constants<double>::to_rad);
+const sym::Real Constants<sym::Real>::to_deg = sym::Real(Constants<double>::to_deg);
+template<class B,int N> struct Constants<sym::Jet<B,N>> { static const sym::Jet<B,N> eps; static const sym::Jet<B,N> eps_sqrt; };
+template<class B,int N> const sym::Jet<B,N> Constants<sym::Jet<B,N>>::eps_sqrt = sym::Jet<B,N>(B(Constants<B>::eps_sqrt));
 template<class B,int N> const sym::Jet<B,N> Constants<sym::Jet<B,N>>::eps = sym::Jet<B,N>(B(Constants<B>::eps));
 }
 #include "manif/impl/traits.h"
@@ -117,7 +125,7 @@ inline int run_main(int argc, char** argv){
     if(!std::regex_match(e.first,re)) continue;
     f<<"ENTRY "<<e.first<<"\n";
 #if HSYM
-    auto& C=sym::ctx(); C.eps_value=manif::Constants<sym::Real>::eps.val(); C.force_eps=0;
+    auto& C=sym::ctx(); C.eps_value=manif::Constants<sym::Real>::eps.val(); C.eps_sqrt_value=manif::Constants<sym::Real>::eps_sqrt.val(); C.force_eps=0;
     struct St{ bool taken, flipped; }; std::vector<St> stack;
     struct PathRec{ std::string outcome, msg; std::vector<sym::Decision> pc; std::vector<Item> items; };
     std::vector<PathRec> paths; bool truncated=false;
